@@ -103,7 +103,7 @@ def run(v) -> None:
             zs = sorted(z)
             iqr_pos = zs[(3 * n) // 4] > zs[n // 4]       # the invariance clause presupposes a non-zero scale estimate
             cases.append({"api": "MatchedFilter", "kind": "boxcar", "z": z, "mx": mx, "fn": fn, "fd": fd,
-                          "inv": rng.choice([(2.0, 5.0), (0.5, -3.0), (4.0, 100.0), (3.0, 0.0)]) if iqr_pos else None})
+                          "inv": rng.choice([(2.0, 5.0), (0.5, -3.0), (4.0, 100.0), (3.0, 0.0), (4.0, 1048576.0), (1.0, 500000.0)]) if iqr_pos else None})   # incl. a baseline >> noise, still exact in float32
             for kind in ("gaussian", "lorentzian"):
                 if n >= 24:
                     cases.append({"api": "MatchedFilter", "kind": kind, "z": z, "mx": 4, "fn": 2, "fd": 1})
